@@ -240,6 +240,16 @@ def _balanced(s: str) -> bool:
     return depth == 0 and not instr
 
 
+def pmap(fn, items, procs: int = 16, chunksize: int = 8) -> list:
+    """Run fn over items in forked worker processes (order preserved). fn must be a module-level function."""
+    import multiprocessing as mp
+    items = list(items)
+    if len(items) < 4 * procs:
+        return [fn(x) for x in items]
+    with mp.get_context("fork").Pool(procs) as pool:
+        return pool.map(fn, items, chunksize=chunksize)
+
+
 def load_known() -> list:
     if KNOWN.exists():
         return json.loads(KNOWN.read_text())["findings"]
